@@ -399,8 +399,9 @@ class Branch(SequenceSet[Node], EventEmitter, abcs.Copyable, metaclass=BranchMet
         if isinstance(node, SentenceNode):
             s: Sentence = node[Node.Key.sentence]
             if len(cons := s.constants):
-                if self._nextconst in cons:
-                    self._nextconst = max(cons).next()
+                maxconst = max(cons)
+                if maxconst >= self._nextconst:
+                    self._nextconst = maxconst.next()
                 self._constants.update(cons)
 
         if isinstance(node, Modal):
